@@ -84,7 +84,21 @@ def _serve(conn, workdir):
                 pol = ResponsePolicy(**opts) if opts else ResponsePolicy()
                 obj = sload.load_skr(path, pol, log_contents=log_contents)
             ok_validated = validated["ok"] and validated["id"] == id(obj)
-            out = ("object", type(obj).__name__, {"validated": ok_validated, "reads": reads["n"], "bundles": len(obj.bundles)}, time.time() - t0)
+            # "full validation" includes the signatures (when the policy asks for them): each is re-verified here with the cryptography library alone,
+            # under the key the returned object itself lists for the signature's identifier
+            sig_ok = None
+            if getattr(pol, "validate_signatures", True):
+                import specs
+                sig_ok = True
+                for b in obj.bundles:
+                    keys = [specs.keyd(k) for k in b.keys]
+                    for s_ in b.signatures:
+                        try:
+                            if not specs.sig_verdict(specs.sigd(s_), keys)[1]:
+                                sig_ok = False
+                        except Exception:  # noqa: BLE001
+                            sig_ok = False
+            out = ("object", type(obj).__name__, {"validated": ok_validated, "reads": reads["n"], "bundles": len(obj.bundles), "signatures_verify": sig_ok}, time.time() - t0)
         except RecursionError:
             out = ("exception", "RecursionError", {"reads": reads["n"]}, time.time() - t0)
         except MemoryError:
